@@ -24,10 +24,11 @@ STUB = ['transport/reactor (txsim.core)', 'Tor: control server with configuratio
 PROBES = {
     'C10': ['edit-between-save-and-ack', 'rejected-save', 'rejected-save-then-edit', 'overlapping-saves', 'save-nothing-pending',
             'list-append', 'list-extend', 'list-insert', 'list-remove', 'list-pop', 'list-setitem', 'list-emptied', 'inplace-edit-of-inflight-option',
-            'assign-scalar', 'assign-list', 'random-case-name', 'quiet-point-checked', 'segmented-delivery'],
+            'assign-scalar', 'assign-list', 'assign-live-list-of-another-option', 'random-case-name', 'quiet-point-checked', 'segmented-delivery'],
     'C11': ['defaults-absent', 'defaults-empty', 'defaults-many', 'option-unset-with-default', 'option-unset-no-default',
             'conf-changed-0-values', 'conf-changed-1-value', 'conf-changed-many-values', 'read-edit-save-after-conf-changed',
-            'port-option-multi-valued', 'port-option-unset', 'linelist-multi', 'conf-changed-during-bootstrap', 'commalist', 'random-case-name',
+            'port-option-multi-valued', 'port-option-unset', 'linelist-multi', 'conf-changed-during-bootstrap', 'commalist',
+            'commalist-item-with-interior-blank', 'random-case-name',
             'quiet-point-checked', 'segmented-delivery'],
 }
 
@@ -40,9 +41,10 @@ CATALOG = [
     ('LongLivedPorts', 'CommaList'), ('ExitNodes', 'RouterList'),
     ('Log', 'LineList'), ('ExitPolicy', 'LineList'), ('HidServAuth', 'LineList'), ('MapAddress', 'LineList'),
     ('SocksPort', 'PORT'), ('DNSPort', 'PORT'), ('TransPort', 'PORT'),
+    ('TestingServerDownloadSchedule', 'TimeIntervalCommaList'),
 ]
 LISTY = ('LineList', 'PORT')
-CSV = ('CommaList', 'RouterList')
+CSV = ('CommaList', 'RouterList', 'TimeIntervalCommaList')
 INTS = ('Integer', 'SignedInteger', 'Port', 'TimeInterval', 'DataSize')
 
 
@@ -122,6 +124,9 @@ class ConfigRun(object):
         if not any(t in LISTY for _, t in picks):
             picks.append(('Log', 'LineList'))
         self.defaults_mode = ['absent', 'empty', 'many'][ch.weighted([2, 1, 4], 'defmode')]
+        # in this mode GETCONF answers the bare keyword for an unset option and its default is only in config/defaults
+        self.list_defaults = self.prop == 'C11' and self.defaults_mode == 'many' and ch.chance(1, 3, 'listdef')
+        tor.getconf_shows_defaults = not self.list_defaults
         sim.probe('defaults-' + self.defaults_mode)
         for name, typ in picks:
             o = Opt(name, typ)
@@ -139,6 +144,16 @@ class ConfigRun(object):
             if self.defaults_mode == 'many' and typ in ('String', 'Filename') and ch.chance(1, 2, 'hasdef'):
                 o.default = [ch.pick(['defaultvalue', '/var/lib/tor', 'Unnamed'], 'defval')]
                 co.default = o.default
+            if self.defaults_mode == 'many' and self.list_defaults and (typ in LISTY or typ in CSV) and ch.chance(1, 2, 'haslistdef'):
+                # list-typed options with a default of one entry (comma lists) or one / two lines
+                if typ in CSV:
+                    o.default = [ch.pick(['21,22,706', '443', 'a, b'], 'csvdef')]
+                elif typ == 'PORT':
+                    o.default = [['9050'], ['9050', '9150 IsolateDestAddr']][ch.draw(2, 'portdef')]
+                else:
+                    o.default = [['notice stdout'], ['accept *:80', 'reject *:*']][ch.draw(2, 'linedef')]
+                co.default = o.default
+                sim.probe('list-option-with-default-%d-line%s' % (len(o.default), '' if len(o.default) == 1 else 's'))
             if vals is None:
                 sim.probe('option-unset-with-default' if o.default else 'option-unset-no-default')
                 if typ == 'PORT':
@@ -148,8 +163,8 @@ class ConfigRun(object):
         if self.defaults_mode == 'many':
             self.default_lines = ['ControlPortX 0', 'CookieAuthFileX /run/tor/cookie']
             for o in self.order:
-                if o.default:
-                    self.default_lines.append('%s %s' % (o.name, o.default[0]))
+                for dv in o.default or ():
+                    self.default_lines.append('%s %s' % (o.name, dv))
 
     def draw_values(self, o, initial=False, changed=False):
         """Tor-side values (list[str] or None) for an option, by type"""
@@ -169,12 +184,20 @@ class ConfigRun(object):
             return [ch.pick(['value%d' % ch.draw(50, 'sv'), '/tmp/some dir/file', 'a b c', 'x'], 'svv')]
         if typ in CSV:
             sim.probe('commalist')
-            if ch.chance(1, 4, 'cunset'):
+            if ch.chance(1, 4, 'cunset') and not (changed and o.default):
                 return None
             k = 1 + ch.draw(3, 'cn')
-            return [','.join('e%d' % ch.draw(90, 'ce') for _ in range(k))]
+            items = ['e%d' % ch.draw(90, 'ce') for _ in range(k)]
+            if ch.chance(1, 3, 'cblank'):
+                # items with an interior blank ("5 minutes") and blank-padded separators: legal for interval lists
+                items = [it + ch.pick(['', ' minutes', ' x y'], 'cunit') for it in items]
+                sim.probe('commalist-item-with-interior-blank')
+                return [ch.pick([',', ', ', ' , '], 'csep').join(items)]
+            return [','.join(items)]
         # LineList / PORT
         k = ch.weighted([2, 3, 3, 1], 'ln')
+        if k == 0 and changed and o.default:
+            k = 1
         if k == 0:
             if changed:
                 sim.probe('conf-changed-0-values')
@@ -345,11 +368,23 @@ class ConfigRun(object):
             new = ['new%d v%d' % (o.version, i) if typ != 'PORT' else str(9100 + o.version * 7 + i) for i in range(k)]
             if k == 0 and not sim.gate('emptied-list'):
                 new = ['solo%d' % o.version if typ != 'PORT' else str(9100 + o.version)]
+            value = None
+            others = [x for x in self.order if x is not o and x.typ == typ and not x.assigned and not self.in_flight_option(x)
+                      and not self.announced_undelivered(x)]
+            if others and ch.chance(1, 4, 'alias'):
+                # assign the live (tracked) list read off another option: the two options must stay independent afterwards
+                src = ch.pick(others, 'aliassrc')
+                live = getattr(self.cfg, self.name_case(src))
+                if isinstance(live, list) and live and not any(isinstance(x, list) or str(x) == 'DEFAULT' for x in live):
+                    value = live
+                    new = [str(x) for x in live]
+                    sim.probe('assign-live-list-of-another-option')
+                    sim.log('assign-from', o.name, src.name)
             if not new:
                 sim.probe('list-emptied')
             sim.probe('assign-list')
             sim.log('assign', o.name, new)
-            setattr(self.cfg, self.name_case(o), list(new))
+            setattr(self.cfg, self.name_case(o), list(new) if value is None else value)
             o.local = list(new)
             o.assigned = True
             self.mark(o)
